@@ -31,6 +31,7 @@ import (
 	"github.com/nuts-foundation/nuts-node/storage"
 	"net/http"
 	"net/url"
+	"time"
 )
 
 func (r Wrapper) CreateDPoPProof(ctx context.Context, request CreateDPoPProofRequestObject) (CreateDPoPProofResponseObject, error) {
@@ -73,6 +74,11 @@ func (r Wrapper) ValidateDPoPProof(_ context.Context, request ValidateDPoPProofR
 	}
 	if ok, err := dpopToken.Match(request.Body.Thumbprint, request.Body.Method, request.Body.Url); !ok {
 		reason := err.Error()
+		return ValidateDPoPProof200JSONResponse{Reason: &reason}, nil
+	}
+	// the jti is remembered for the lifetime of an access token, so a proof older than that must not be accepted (again)
+	if time.Since(dpopToken.Token.IssuedAt()) > accessTokenValidity {
+		reason := "proof is too old"
 		return ValidateDPoPProof200JSONResponse{Reason: &reason}, nil
 	}
 	// check if ath claim matches hash of access_token
